@@ -24,7 +24,7 @@
       (After remove_keep_tree / remove_children value-less leftovers may remain — that is their
       contract — so this clause is about the smaller alphabet [History.canon_op].) *)
 From Coq Require Import List NArith ZArith Bool Lia Permutation.
-From PT Require Import Slots Canon History HistoryExtra.
+From PT Require Import Slots Canon History HistoryExtra Arena ArenaThm Arena2 Arena2Thm InstArena.
 From PT.Properties Require Import Common.
 Import ListNotations.
 
@@ -171,6 +171,39 @@ Theorem C16_churn_bound (ops : list hop) (B : nat) :
   (alen (al (hrun ops)) <= 2 * N.of_nat B + 1)%N.
 Proof. exact (canon_churn_bound pfx V _ _ _ _ _ _ ops B). Qed.
 
+(** * The same at the level of the ARENA (Arena.v, Arena2.v: a transcription of src/inner.rs, of
+      every mutator and lookup of src/map/mod.rs — insert, new_node, remove, _remove_node,
+      remove_keep_tree, remove_children, _do_remove_children, retain, _retain, clear —, of the Entry
+      insertions / OccupiedEntry writes of src/map/entry.rs, of get_mut and of the TrieViewMut writes
+      over a vector of nodes with index links, where a slot linked twice, linked while free, a
+      dangling or out-of-bounds link CAN be expressed; ArenaThm.v / Arena2Thm.v prove that it refines
+      the tree model).  In every arena state reachable from the empty map by ANY history over that
+      alphabet ([aop2]; retain with any closure, panicking ones included): every live slot exists,
+      every link is in bounds, no live slot is on the free list, no slot is linked from two places,
+      slot 0 is never a link target, and a slot below the arena length is live or free. *)
+Lemma peq_len_N (p q : pfx) : peq w p q = true -> plen p = plen q.
+Proof. exact (peqN_len w p q). Qed.
+
+Theorem C16_arena_structure (am : amap pfx V) :
+  reachable2 pfx V (peq w) (contains w fl) (is_bit_set w) plen (lcp w fl) pzero am ->
+  (forall i, live pfx V (tbl am) i -> exists n, slot pfx V (tbl am) i = Some n) /\
+  (forall i rt j, live pfx V (tbl am) i -> edge pfx V (tbl am) i rt j -> (j < N.of_nat (length (tbl am)))%N) /\
+  (forall i, live pfx V (tbl am) i -> ~ In i (afree am)) /\
+  (forall i1 rt1 i2 rt2 j, live pfx V (tbl am) i1 -> live pfx V (tbl am) i2 ->
+     edge pfx V (tbl am) i1 rt1 j -> edge pfx V (tbl am) i2 rt2 j -> i1 = i2 /\ rt1 = rt2) /\
+  (forall i rt, live pfx V (tbl am) i -> ~ edge pfx V (tbl am) i rt 0%N) /\
+  (forall i, (i < N.of_nat (length (tbl am)))%N <-> (live pfx V (tbl am) i \/ In i (afree am))).
+Proof. exact (reachable_structure2 pfx V (peq w) (contains w fl) (is_bit_set w) plen (lcp w fl) pzero peq_len_N eq_refl am). Qed.
+
+(** the arena run of a history represents the tree run (same slots, same free list in the same
+    order, same length, same counter), so the tree-level statements above are statements about
+    the arena; this is also what the `arenax` lines of the correspondence check compare, slot by
+    slot, with the implementation's arena *)
+Theorem C16_arena_refines (ops : list (aop2 pfx V)) :
+  exists am, a_run2 pfx V (peq w) (contains w fl) (is_bit_set w) plen (lcp w fl) pzero ops = Ok am /\
+             Rep pfx V am (t_run2 pfx V (peq w) (contains w fl) (is_bit_set w) plen (lcp w fl) pzero ops) /\ Slots.minv pfx V (t_run2 pfx V (peq w) (contains w fl) (is_bit_set w) plen (lcp w fl) pzero ops).
+Proof. exact (run_sim2_N V w fl ops). Qed.
+
 End C16.
 
 (** non-vacuity (w = 8): ten insert/remove cycles over a working set of three keys (with a
@@ -213,3 +246,6 @@ Print Assumptions C16_high_water_since_reset.
 Print Assumptions C16_emptied_by_remove.
 Print Assumptions C16_nodes_linear.
 Print Assumptions C16_churn_bound.
+Print Assumptions C16_arena_structure.
+Print Assumptions C16_arena_refines.
+Print Assumptions peq_len_N.
